@@ -132,7 +132,7 @@ func queryMutants(rng *rand.Rand, corpus []string, perText int, structural bool)
 		b := []byte(q)
 		if structural {
 			// truncation at every offset of short texts
-			if len(b) <= 80 {
+			if len(b) <= 48 {
 				for off := 1; off < len(b); off++ {
 					out = append(out, Mutant{Class: "trunc", Where: "query", Note: q, Data: append([]byte{}, b[:off]...)})
 				}
